@@ -16,6 +16,7 @@ import (
 	"go/ast"
 	"go/token"
 	"go/types"
+	"strings"
 )
 
 const nodeType = modPath + "/internal/linkedlist.Node"
@@ -259,6 +260,7 @@ func (d *ownDom) freshExpr(ip *Interp, fr *Frame, e ast.Expr) bool {
 // runOwnership analyses every function of package varmq that touches pool
 // nodes and is not itself reached by inlining from another such function.
 func (c *Ctx) runOwnership(rule string) int {
+	c.ruleListMembership(rule)
 	touch := func(f *Func) bool {
 		return c.P.containsCall(f, kNodeSend, kNodeStop, kPushNode, kRemove, kPopBack, kPopFront) || func() bool {
 			for _, cs := range c.P.calls(f) {
@@ -324,4 +326,131 @@ func (c *Ctx) runOwnership(rule string) int {
 		total += d.uses
 	}
 	return total
+}
+
+
+// ruleListMembership (part of R01.4): the idle list's membership invariant.
+// Ownership by `Remove(n) == true` is only as good as Remove's test "is n in
+// the list", which reads n's links: every operation that takes a node out of
+// the list must nil both links of that node, Remove must refuse (false,
+// nothing modified) a node whose links are nil, and must report true only on a
+// path that unlinked the node.
+func (c *Ctx) ruleListMembership(rule string) {
+	ll := modPath + "/internal/linkedlist"
+	fNext, fPrev, fLen := ll+".Node.next", ll+".Node.prev", ll+".List.len"
+	n := 0
+	for _, f := range c.P.pkgFuncs(ll) {
+		if f.Obj == nil || f.Decl.Recv == nil || f.Body == nil {
+			continue
+		}
+		if recv := namedOf(f.Obj.Type().(*types.Signature).Recv().Type()); recv == nil || recv.Obj().Name() != "List" {
+			continue
+		}
+		info := f.Info()
+		sr := &seqRule{c: c, rule: rule}
+		sr.visit = func(fr *Frame, nd ast.Node) string {
+			switch x := nd.(type) {
+			case *ast.IncDecStmt:
+				if selField(info, x.X) == fLen {
+					if x.Tok == token.DEC {
+						return "len--"
+					}
+					return "len++"
+				}
+			case *ast.AssignStmt:
+				var syms []string
+				for i, l := range x.Lhs {
+					fk := selField(info, l)
+					if fk != fNext && fk != fPrev || i >= len(x.Rhs) {
+						continue
+					}
+					sel := ast.Unparen(l).(*ast.SelectorExpr)
+					// only links of a plain variable (the node itself), not of its neighbours (x.prev.next)
+					id, ok := ast.Unparen(sel.X).(*ast.Ident)
+					if !ok {
+						continue
+					}
+					which := "next"
+					if fk == fPrev {
+						which = "prev"
+					}
+					if isNilExpr(info, x.Rhs[i]) {
+						syms = append(syms, "nil("+which+"):"+id.Name)
+					} else {
+						syms = append(syms, "set("+which+"):"+id.Name)
+					}
+				}
+				return strings.Join(syms, ",")
+			}
+			return ""
+		}
+		sr.condExpr = func(fr *Frame, e ast.Expr, branch bool, ip *Interp, st *State) string {
+			be, op := binOp(e)
+			if be == nil || (op != token.EQL && op != token.NEQ) {
+				return ""
+			}
+			x, y := be.X, be.Y
+			if isNilExpr(info, x) {
+				x, y = y, x
+			}
+			if !isNilExpr(info, y) {
+				return ""
+			}
+			if fk := selField(info, x); fk == fNext || fk == fPrev {
+				return fmt.Sprintf("link-nil=%v", (op == token.EQL) == branch)
+			}
+			return ""
+		}
+		for _, sg := range sr.segments(f) {
+			if sg.Kind != "path" {
+				continue
+			}
+			var syms []string
+			for _, s := range sg.Syms {
+				syms = append(syms, strings.Split(s, ",")...)
+			}
+			sg.Syms = syms
+			desc := "[" + strings.Join(syms, " ") + "]"
+			if sg.has("len--") {
+				n++
+				// both links of one node are nil-ed
+				nodes := map[string]int{}
+				for _, s := range syms {
+					if strings.HasPrefix(s, "nil(next):") {
+						nodes[s[len("nil(next):"):]] |= 1
+					}
+					if strings.HasPrefix(s, "nil(prev):") {
+						nodes[s[len("nil(prev):"):]] |= 2
+					}
+				}
+				ok := false
+				for _, v := range nodes {
+					if v == 3 {
+						ok = true
+					}
+				}
+				c.Rep.check(ok, rule, f.Short(), "node taken out of the list keeps its links", sg.End, "removed node's next and prev are nil-ed",
+					f.Short()+" takes a node out of the idle list without clearing both of its links: Remove() can then no longer tell an idle node from one the dispatcher has popped, and a party that does not own the node stops it: "+desc)
+			}
+			if f.Obj.Name() == "Remove" && len(sg.Ret) == 1 {
+				if sg.Ret[0].isTrue() {
+					c.Rep.check(sg.has("len--") && !sg.has("link-nil=true"), rule, f.Short(), "Remove reports true without unlinking", sg.End, "true only after unlinking a linked node", "Remove must report true only when it actually unlinked a node that was in the list: "+desc)
+				} else if sg.Ret[0].isFalse() {
+					c.Rep.check(!sg.has("len--") && !sg.has("len++"), rule, f.Short(), "Remove reports false after modifying the list", sg.End, "false ⇒ list untouched", "Remove reports false but modified the list: "+desc)
+				}
+			}
+		}
+		if f.Obj.Name() == "Remove" {
+			refuses := false
+			for _, sg := range sr.segments(f) {
+				if sg.Kind == "path" && sg.has("link-nil=true") && len(sg.Ret) == 1 && sg.Ret[0].isFalse() {
+					refuses = true
+				}
+			}
+			c.Rep.check(refuses, rule, f.Short(), "Remove does not refuse a node that is not in the list", c.P.pos(f.Body), "nil links ⇒ false", "Remove must return false for a node whose links are nil (not in the list): its result is what ownership of the node is decided on")
+		}
+	}
+	if n == 0 {
+		c.Rep.undecided(rule, "linkedlist.List", "no removal path", "", "no method of the list takes a node out")
+	}
 }
